@@ -716,7 +716,23 @@ _process_request_(struct qb_ipcs_connection *c, int32_t ms_timeout)
 		}
 		res = size;
 		goto cleanup;
-	} else if (size == 0 || hdr->id == QB_IPC_MSG_DISCONNECT) {
+	} else if (size < (ssize_t)sizeof(struct qb_ipc_request_header) ||
+		   hdr->size < (int32_t)sizeof(struct qb_ipc_request_header) ||
+		   hdr->size > size) {
+		/*
+		 * The length the client put into the header is what the
+		 * application is told: never trust it beyond what actually
+		 * arrived.  A client that sends such a message is dropped.
+		 */
+		if (size != 0 && hdr->id != QB_IPC_MSG_DISCONNECT) {
+			qb_util_log(LOG_ERR,
+				    "malformed request from client, header size %d but %zd bytes received (%s)",
+				    size >= (ssize_t)sizeof(struct qb_ipc_request_header) ?
+				    hdr->size : -1, size, c->description);
+		}
+		res = -ESHUTDOWN;
+		goto cleanup;
+	} else if (hdr->id == QB_IPC_MSG_DISCONNECT) {
 		qb_util_log(LOG_DEBUG, "client requesting a disconnect (%s)",
 			    c->description);
 		res = -ESHUTDOWN;
